@@ -49,8 +49,10 @@ def build_fixture(mode, seed):
     # bound disk use: keep the three most recent fixtures
     root = os.path.join(facts.WORK, "grid")
     ds = sorted((os.path.join(root, d) for d in os.listdir(root)), key=os.path.getmtime, reverse=True)
+    import time as _time
     for d in ds[3:]:
-        if d != out:
+        # (never one that a concurrent run on another tree may still be building: only fixtures untouched for an hour)
+        if d != out and _time.time() - os.path.getmtime(d) > 3600:
             shutil.rmtree(d, ignore_errors=True)
     return out
 
